@@ -126,9 +126,9 @@ harnesses! {
     #[kani::unwind(10)]
     fn c03_ffi_linear_grid(nd) { ffi!(nd, f64, PolynomialDegree::Linear, 2, 2.0, 4, 16, "base", grid, [(0.5, 5)]); }
     #[kani::unwind(14)]
-    fn c03_ffi_cubic_full(nd) { ffi!(nd, f32, PolynomialDegree::Cubic, 2, 3.0, 4, 18, "base", full, [(3.0, 2)]); }
+    fn c03_ffi_cubic_full(nd) { ffi!(nd, f32, PolynomialDegree::Cubic, 2, 3.0, 4, 18, "base", full, [(3.0, 4)]); }
     #[kani::unwind(14)]
-    fn c03_ffi_cubic_grid(nd) { ffi!(nd, f32, PolynomialDegree::Cubic, 2, 3.0, 4, 18, "base", grid, [(3.0, 2)]); }
+    fn c03_ffi_cubic_grid(nd) { ffi!(nd, f32, PolynomialDegree::Cubic, 2, 3.0, 4, 18, "base", grid, [(3.0, 4)]); }
     #[kani::unwind(12)]
     fn c03_ffi_quintic_full(nd) { ffi!(nd, f32, PolynomialDegree::Quintic, 3, 2.0, 5, 18, "base", full, [(0.5, 4)]); }
     #[kani::unwind(12)]
@@ -170,9 +170,9 @@ harnesses! {
     #[kani::unwind(10)]
     fn c03_sfi_cubic_grid(nd) { sfi!(nd, f32, boxed32, SincInterpolationType::Cubic, 8, 4, 2, 2.0, 4, 16, "base", grid, [(2.0, 3)]); }
     #[kani::unwind(14)]
-    fn c03_sfi_quadratic_full(nd) { sfi!(nd, f32, boxed32, SincInterpolationType::Quadratic, 8, 3, 2, 3.0, 4, 18, "base", full, [(3.0, 2)]); }
+    fn c03_sfi_quadratic_full(nd) { sfi!(nd, f32, boxed32, SincInterpolationType::Quadratic, 8, 3, 2, 3.0, 4, 18, "base", full, [(3.0, 4)]); }
     #[kani::unwind(14)]
-    fn c03_sfi_quadratic_grid(nd) { sfi!(nd, f32, boxed32, SincInterpolationType::Quadratic, 8, 3, 2, 3.0, 4, 18, "base", grid, [(3.0, 2)]); }
+    fn c03_sfi_quadratic_grid(nd) { sfi!(nd, f32, boxed32, SincInterpolationType::Quadratic, 8, 3, 2, 3.0, 4, 18, "base", grid, [(3.0, 4)]); }
     #[kani::unwind(20)]
     fn c03_sfo_nearest_full(nd) { sfo!(nd, f64, boxed64, SincInterpolationType::Nearest, 8, 1, 2, 2.0, 12, 4, "base", full, []); }
     #[kani::unwind(20)]
